@@ -58,9 +58,10 @@ MANIFEST = {
             "specification over Keccak-p[1600,12] is validation: differential run of random API programs on the real "
             "object (assembly build and portable build) against the Lean transcription, anchored to the XKCP vector.",
     "design_ref": "DESIGN.md 5.13",
-    "note": "Trusted: Lean kernel; the correspondence run ties model and code (quick: ~3400 programs per build, all "
-            "operand lengths 0..280); conformance to Keccak/Cyclist is tested, not proved; the amd64 assembly is compared, "
-            "not verified.",
+    "note": "Trusted: Lean kernel; the correspondence run ties model and code (quick: ~3400 programs / 26 000 calls per "
+            "build, every operand length 0..280, ~9 s; thorough: 200 000 random programs per build plus all length pairs "
+            "across two rate boundaries, ~6 M calls, ~95 s on 16 cores); conformance to Keccak/Cyclist is tested, not "
+            "proved; the amd64 assembly is compared, not verified.",
     "technique": "Lean 4 proof (xor cancellation + induction over blocks and over programs, permutation abstract) + "
                  "differential correspondence on two builds + XKCP vector replay",
 }
